@@ -111,8 +111,10 @@ def packets():
 
 
 SRC_SPECS = [(None, None), ("10.0.1.5", None), ("10.0.1.0", "0.0.0.255"), ("10.0.1.5", "0.0.0.127"), ("10.0.2.77", "0.0.255.255"),
-             ("10.0.1.5", "0.0.0.0")]
-DST_SPECS = [(None, None), ("10.0.2.5", None), ("10.0.1.0", "0.0.0.255"), ("10.0.1.200", "0.0.0.127")]
+             ("10.0.1.5", "0.0.0.0"),
+             # wildcard masks whose ignored bits are not one low block (legal: any bit may be a "don't care")
+             ("10.0.1.5", "0.0.255.0"), ("10.0.1.4", "0.0.0.254")]
+DST_SPECS = [(None, None), ("10.0.2.5", None), ("10.0.1.0", "0.0.0.255"), ("10.0.1.200", "0.0.0.127"), ("10.0.9.5", "0.0.255.0")]
 
 
 def single_rules():
@@ -138,6 +140,7 @@ COVER = [
     ("DENY", None, "10.0.1.5", "0.0.0.127", "10.0.1.200", "0.0.0.127", None, None),
     ("PERMIT", "udp", None, None, None, None, 1234, 21),
     ("DENY", "tcp", None, None, None, None, 80, 21),
+    ("DENY", None, "10.0.9.5", "0.0.255.0", None, None, None, None),
 ]
 
 _PKTS = None
